@@ -98,7 +98,31 @@ def check(ctx):
     eg = r3(ctx, p)
     r4(ctx, p, eg)
     r5(ctx, p)
+    r6(ctx, p)
     ctx.note('not decided: collisions of the 64-bit pawn key between different pawn structures (probabilistic)')
+
+
+def r6(ctx, p, rule='C14.R6.members-built-first', which=('a', 'b')):
+    """R6 the scorer's own members (attack maps, pin sets, phase weight) are set before they are used in every evaluation:
+    the first event on each member slot is an unconditional plain write and no slot is changed after it was read"""
+    from rules.evalseq import member_events, check_slots
+    root = p.fn(PS + 'score')
+    members, events = member_events(p, root, 'engine::PositionScorer')
+    bad = [b for b in check_slots(events) if b[0] in which]
+    slots = sorted({e[1] for e in events if e[0] != 'X'})
+    ctx.floor(rule, len(slots), 20, 'member slots touched by an evaluation')
+    seen = set()
+    for kind, slot, site, why in bad:
+        key = (kind, slot)
+        if key in seen:
+            continue
+        seen.add(key)
+        ctx.ob(rule, '%s%s' % (slot[0], ''.join('[%s]' % i for i in slot[1])), False,
+               ('a value left by an earlier evaluation can be used: ' if kind == 'a' else
+                'a member is used while it is still being built (the colours are processed one after the other): ') + why, site=site)
+    ctx.ob(rule, 'PositionScorer::score', not bad,
+           'walking one evaluation in execution order (%d accesses to %d member slots): every slot is first set by an unconditional '
+           'plain assignment, and no slot is written after it was read' % (len(events), len(slots)), site=root.loc())
 
 
 # ---------------------------------------------------------------------------------------------------------------------------
